@@ -85,6 +85,13 @@ async fn run_script(script: Script) -> Vec<Ev> {
 	reset.id = script.delay_run as i64;
 	reset.pending = Some(vec![script.stop_signal]);
 	rec.rec(reset);
+	// the simulated commands of this script, by spawn index (for the trace specification)
+	for (i, k) in script.kids.iter().enumerate() {
+		let mut e = Ev::new("kid").n(i as i64 + 1);
+		e.x = k.self_at.map_or(-1, |v| v as i64);
+		e.w = k.sig_delay.map_or(-1, |v| v as i64);
+		rec.rec(e);
+	}
 
 	let mut argv: Vec<OsString> = vec!["watchexec".into(), "--quiet".into(), "-w".into(), "/dev/null".into(),
 		"--project-origin".into(), "/".into(), "--debounce".into(), format!("{}ms", script.debounce).into(),
